@@ -24,6 +24,11 @@ class Infeasible(Exception):
     pass
 
 
+class PathDone(Exception):
+    """the path reached a cut point whose continuation is covered by another path"""
+    pass
+
+
 class Sym:
     __slots__ = ("t", "lo", "hi", "tz", "cong", "parts")
 
@@ -138,6 +143,8 @@ class Ctx:
         self.prune = prune      # callable(list of z3 bool) -> False if definitely unsat
         self.nfresh = 0
         self.trace = []
+        self.fresh_from = 0     # obligations below this index were recorded on the replayed prefix (the parent path has them)
+        self._n0 = len(self.decisions)
 
     def fresh(self, prefix, sort):
         self.nfresh += 1
@@ -162,6 +169,8 @@ class Ctx:
         if self.pos > 3000:
             raise Unsupported("more than 3000 symbolic decisions on one path (non-terminating loop?)")
         if self.pos < len(self.decisions):
+            if self.pos == self._n0 - 1:
+                self.fresh_from = len(self.obls)
             d = self.decisions[self.pos]
         else:
             # new decision point: choose True first, queue False (subject to feasibility)
@@ -204,8 +213,14 @@ def explore(run, prune=None, max_paths=4096):
         dec = work.pop()
         ctx = Ctx(dec, prune)
         ctx.aborted = False
+        ctx.cut = False
+        ctx.n_replay = len(dec)
         try:
             res = run(ctx)
+        except PathDone:
+            ctx.aborted = True
+            ctx.cut = True
+            res = None
         except Infeasible:
             # path ended in a panic / unreachable: keep its obligations, it has no result
             ctx.aborted = True
@@ -329,6 +344,8 @@ class Ex:
         self.callstack = []
         self.statics = {}
         self.calls_seen = []
+        self.block_hooks = {}
+        self.hook_visits = {}
 
     # ---------------------------------------------------------------- constants
     def const(self, text, want_ty=None):
@@ -741,6 +758,11 @@ class Ex:
                 if stop_bb is not None and bb == stop_bb and not first:
                     return ("stopped", frame)
                 first = False
+                hk = self.block_hooks.get((fn.name, bb)) if self.block_hooks else None
+                if hk is not None:
+                    cnt = self.hook_visits.get((fn.name, bb), 0)
+                    self.hook_visits[(fn.name, bb)] = cnt + 1
+                    hk(self, fn, frame, cnt)
                 stmts, term = fn.blocks[bb]
                 for st in stmts:
                     self.steps += 1
